@@ -169,13 +169,43 @@ func main {
 `},
 }
 
+func init() {
+	progs = append(progs, prog{"p6.wa", `
+import "unsafe"
+
+type T :struct {
+	a: i32
+	b: i64
+	c: u8
+}
+
+func main {
+	t: T
+	println("layout", unsafe.Sizeof(t), unsafe.Alignof(t.b), unsafe.Offsetof(t.b), unsafe.Offsetof(t.c))
+}
+`})
+}
+
+// configuration variants: the API's default and the sizes the command line front end sets
+func cfgOf(variant string) *api.Config {
+	cfg := api.DefaultConfig()
+	if variant == "sizes48" {
+		cfg.WaSizes = api.StdSize{WordSize: 4, MaxAlign: 8}
+	}
+	return cfg
+}
+
+var variants = []string{"default", "sizes48"}
+
 func sha(b []byte) string {
 	h := sha256.Sum256(b)
 	return hex.EncodeToString(h[:8])
 }
 
 // what one API call returns, reduced to a comparable string
-func doCall(kind string, p prog) (res string) {
+func doCall(kind string, p prog) (res string) { return doCallCfg(kind, p, "default") }
+
+func doCallCfg(kind string, p prog, variant string) (res string) {
 	defer func() {
 		if e := recover(); e != nil {
 			res = fmt.Sprint("PANIC: ", e)
@@ -183,7 +213,7 @@ func doCall(kind string, p prog) (res string) {
 	}()
 	switch kind {
 	case "build":
-		mainFn, wat, fset, err := api.BuildFile(api.DefaultConfig(), p.name, p.code)
+		mainFn, wat, fset, err := api.BuildFile(cfgOf(variant), p.name, p.code)
 		if err != nil {
 			return "ERR " + err.Error()
 		}
@@ -193,7 +223,7 @@ func doCall(kind string, p prog) (res string) {
 		}
 		return mainFn + " wat=" + sha(wat) + " wasm=" + sha(wasm) + " fset=" + strconv.Itoa(len(fset))
 	case "run":
-		out, err := api.RunCode(api.DefaultConfig(), p.name, p.code)
+		out, err := api.RunCode(cfgOf(variant), p.name, p.code)
 		if err != nil {
 			return "ERR " + err.Error() + " " + string(out)
 		}
@@ -278,7 +308,11 @@ func runSchedule(schedule []int, ps []prog, baseline map[string]string) schedRes
 	for c := 1; c <= n; c++ {
 		g.proceed[c] = make(chan struct{})
 		res.Progs = append(res.Progs, ps[c-1].name)
-		res.Baseline[c-1] = baseline[ps[c-1].name]
+		if v := variants[(c+len(schedule))%len(variants)]; v != "default" {
+			res.Baseline[c-1] = baseline[ps[c-1].name+"@"+v]
+		} else {
+			res.Baseline[c-1] = baseline[ps[c-1].name]
+		}
 	}
 	started := make(chan struct{}, n)
 	for c := 1; c <= n; c++ {
@@ -288,7 +322,8 @@ func runSchedule(schedule []int, ps []prog, baseline map[string]string) schedRes
 			g.callOf[gid()] = c
 			g.mu.Unlock()
 			started <- struct{}{}
-			res.Results[c-1] = doCall("build", ps[c-1])
+			v := variants[(c+len(schedule))%len(variants)]
+			res.Results[c-1] = doCallCfg("build", ps[c-1], v)
 			done <- c
 		}()
 	}
@@ -396,13 +431,18 @@ func runSchedule(schedule []int, ps []prog, baseline map[string]string) schedRes
 
 func baselineAll(kinds []string) map[string]string {
 	b := map[string]string{}
-	for _, p := range progs {
-		for _, k := range kinds {
-			key := p.name
-			if k != "build" {
-				key = k + ":" + p.name
+	for _, v := range variants { // every default-config result is taken before any other configuration is used
+		for _, p := range progs {
+			for _, k := range kinds {
+				key := p.name
+				if k != "build" {
+					key = k + ":" + p.name
+				}
+				if v != "default" {
+					key += "@" + v
+				}
+				b[key] = doCallCfg(k, p, v)
 			}
-			b[key] = doCall(k, p)
 		}
 	}
 	return b
@@ -428,6 +468,12 @@ func schedMain(path string) {
 	out := bufio.NewWriter(os.Stdout)
 	enc := json.NewEncoder(out)
 	base := baselineAll([]string{"build"})
+	// sequential independence: after calls with other configurations the default results must be unchanged
+	for _, p := range progs {
+		if r := doCall("build", p); r != base[p.name] {
+			fmt.Fprintf(out, "{\"sequential_leak\":%q,\"first\":%q,\"again\":%q}\n", p.name, base[p.name], r)
+		}
+	}
 	sc := bufio.NewScanner(f)
 	sc.Buffer(make([]byte, 1<<20), 1<<24)
 	k := 0
@@ -507,10 +553,14 @@ func stressMain(g, n int, seed int64) {
 				seq++
 				events = append(events, map[string]interface{}{"seq": seq, "call": c, "ev": "begin", "kind": k, "prog": p.name})
 				mu.Unlock()
-				r := doCall(k, p)
+				v := variants[rng.Intn(len(variants))]
+				r := doCallCfg(k, p, v)
 				key := p.name
 				if k != "build" {
 					key = k + ":" + p.name
+				}
+				if v != "default" {
+					key += "@" + v
 				}
 				mu.Lock()
 				seq++
